@@ -92,17 +92,19 @@ class PDFPage:
                 object_id = obj
                 object_properties = dict_value(document.getobj(object_id)).copy()
             else:
-                # This looks broken. obj.objid means obj could be either
-                # PDFObjRef or PDFStream, but neither is valid for dict_value.
-                object_id = obj.objid  # type: ignore[attr-defined]
+                # Normally an indirect reference. A node written directly
+                # into /Kids (or anything else that is not a reference) has
+                # no object id; dict_value() sorts out what is not a dict.
+                object_id = getattr(obj, "objid", None)
                 object_properties = dict_value(obj).copy()
 
             # Avoid recursion errors by keeping track of visited nodes
             if visited is None:
                 visited = set()
-            if object_id in visited:
-                return
-            visited.add(object_id)
+            if object_id is not None:
+                if object_id in visited:
+                    return
+                visited.add(object_id)
 
             for k, v in parent.items():
                 if k in cls.INHERITABLE_ATTRS and k not in object_properties:
@@ -113,6 +115,12 @@ class PDFPage:
                 object_type = object_properties.get("type")
 
             if object_type is LITERAL_PAGES and "Kids" in object_properties:
+                if object_id is None:
+                    # An intermediate node that is not an indirect object
+                    # cannot be tracked in `visited`; descending into it
+                    # could go on forever (its /Kids may lead back to it).
+                    log.warning("Ignoring /Pages node that is not an indirect object")
+                    return
                 log.debug("Pages: Kids=%r", object_properties["Kids"])
                 for child in list_value(object_properties["Kids"]):
                     yield from depth_first_search(child, object_properties, visited)
